@@ -158,15 +158,19 @@ func (i *Interpreter) ProcessPrefixExpression(exp *ast.PrefixExpression, opt *Ex
 		}
 	case "-":
 		switch t := v.(type) {
+		// Negate a copy: the operand may be the stored value of a variable
 		case *value.Integer:
-			t.Value = -t.Value
-			return t, nil
+			n := value.Unwrap[*value.Integer](t.Copy())
+			n.Value = -n.Value
+			return n, nil
 		case *value.Float:
-			t.Value = -t.Value
-			return t, nil
+			n := value.Unwrap[*value.Float](t.Copy())
+			n.Value = -n.Value
+			return n, nil
 		case *value.RTime:
-			t.Value = -t.Value
-			return t, nil
+			n := value.Unwrap[*value.RTime](t.Copy())
+			n.Value = -n.Value
+			return n, nil
 		default:
 			return value.Null, errors.WithStack(
 				exception.Runtime(&exp.GetMeta().Token, `Unexpected "-" prefix operator for %v`, v),
